@@ -21,7 +21,7 @@ pub const ADDRS_EDGE: [u32; 3] = [0x000000, 0xffffff, 0x000001];
 pub fn kinds() -> Vec<&'static str> {
     vec![
         "DF0", "DF4", "DF5", "DF11", "DF11:ii=5", "DF11:residual", "DF16",
-        "DF17:05", "DF17:05+pos", "DF17:06+pos", "DF17:08", "DF17:08#", "DF17:09gs", "DF17:09ias", "DF17:09tas",
+        "DF17:05", "DF17:05+pos", "DF17:06+pos", "DF17:08", "DF17:08#", "DF17:09gs", "DF17:09ias", "DF17:09tas", "DF17:09gs-supersonic", "DF17:09tas-supersonic",
         "DF17:61", "DF17:62", "DF17:65air1", "DF17:65air2", "DF17:65sfc2", "DF17:tc0",
         "DF18:05+pos", "DF18:06+pos", "DF18:08", "DF18:09gs",
         "DF20:20", "DF20:40", "DF20:50", "DF20:60", "DF20:empty", "DF21:20", "DF21:50", "DF21:60", "DF21:50+60", "DF20:50+60",
@@ -58,6 +58,9 @@ pub fn make(kind: &str, a: u32, t: u32) -> Option<Message> {
         "DF17:09gs" => df17(5, a, &me_bds09_gs(1, 0, 0, 0, 0, (100 + t) as u16, 1, 50, 0, 0, (t + 2) as u16, 0, 5), 0),
         "DF17:09ias" => df17(5, a, &me_bds09_as(3, 0, 0, 0, 1, (t * 8) as u16, 0, (200 + t) as u16, 0, 1, (t + 2) as u16, 0, 5), 0),
         "DF17:09tas" => df17(5, a, &me_bds09_as(3, 0, 0, 0, 1, (t * 8 + 1) as u16, 1, (300 + t) as u16, 0, 1, (t + 3) as u16, 0, 5), 0),
+        // the supersonic subtypes (2: ground speed, 4: airspeed; 4-kt units)
+        "DF17:09gs-supersonic" => df17(5, a, &me_bds09_gs(2, 0, 0, 0, 0, (150 + t) as u16, 1, 60, 0, 0, (t + 2) as u16, 0, 5), 0),
+        "DF17:09tas-supersonic" => df17(5, a, &me_bds09_as(4, 0, 0, 0, 1, (t * 8 + 1) as u16, 1, (370 + t) as u16, 0, 1, (t + 3) as u16, 0, 5), 0),
         "DF17:61" => df17(5, a, &me_bds61(1, 0, sq), 0),
         "DF17:62" => df17(5, a, &me_bds62(1, 0, (100 + 4 * t) as u16, 300, 1, t as u16, (t % 12) as u8, 1, 3, 0), 0),
         "DF17:65air1" => df17(5, a, &me_bds65(0, 0, 0, 1, 0, (t % 12) as u8, 0), 0),
@@ -252,7 +255,7 @@ pub fn check_gaps(p: &Pool, hist: &[(usize, usize)], gaps: &[f64], rep: &Report)
     judge_recs(&owned.iter().collect::<Vec<_>>(), &wit, rep)
 }
 
-pub const GAPS: [f64; 12] = [0.0, 0.5, 3.0, 60.0, 600.0, 3599.5, 3600.0, 3601.0, 7200.0, 86400.0, 1.0e6, 1.0e9];
+pub const GAPS: [f64; 14] = [0.0, 0.5, 3.0, 60.0, 600.0, 3599.5, 3600.0, 3601.0, 7200.0, 86400.0, 1.0e6, 1.0e9, -2.5, -700.0];
 
 /// n distinct aircraft each seen once, then each seen again in the same order, then the first one a third time
 pub fn fleet_history(n: usize, kind: &str) -> Vec<Rec> {
